@@ -91,12 +91,39 @@ fn gen_cmd(rng: &mut Rng, m: &Model, cx: &Ctx) -> Cmd {
     };
     match rng.below(22) {
         0 | 1 => {
-            let f = match rng.below(6) {
-                0 => &cx.big,
-                1 => &cx.zip,
+            let f = match rng.below(14) {
+                0 | 1 => &cx.big,
+                2 | 3 => &cx.zip,
+                4 => &cx.bad_zip,
+                5 => &cx.cut_zip,
                 _ => &cx.small,
             };
             let sort = rng.chance(1, 4);
+            if rng.chance(1, 5) {
+                // open with plugin configurations (valid, unknown plugin, missing / wrong typed settings, unreadable dirs)
+                let mut plugins = vec![];
+                for _ in 0..1 + rng.usize_below(3) {
+                    plugins.push(match rng.below(12) {
+                        0 => json!({"name":"FileTransfer","allowSave":true,"keepFLDA":false}),
+                        1 => json!({"name":"FileTransfer","apid":"SYS","ctid":"FILE","allowSave":false,"autoSavePath":"/nonexistent/dir"}),
+                        2 => json!({"name":"SomeIp","fibexDir":"/repo/tests/"}),
+                        3 => json!({"name":"SomeIp","fibexDir":"/nonexistent/dir"}),
+                        4 => json!({"name":"NonVerbose","fibexDir":crate::c19::RICH_FIBEX_DIR}),
+                        5 => json!({"name":"CAN","fibexDir":5}),
+                        6 => json!({"name":"Rewrite","rewrites":[{"name":"r","filter":{"type":0,"apid":"SYS"},"payloadRegex":"^(?<a>.*)$","rewrite":{}}]}),
+                        7 => json!({"name":"Rewrite","rewrites":"x"}),
+                        8 => json!({"name":"Muniic","jsonDir":"/repo/tests/muniic"}),
+                        9 => json!({"name":"Bogus"}),
+                        10 => json!({}),
+                        _ => json!("not an object"),
+                    });
+                }
+                return Cmd { text: format!("open {}", json!({"files":[f], "sort": sort, "plugins": plugins})), name: "open".into(), kind: "open-maybe", malformed: false };
+            }
+            if std::ptr::eq(f, &cx.bad_zip) || std::ptr::eq(f, &cx.cut_zip) {
+                // not a readable archive: the server may refuse or open an empty file, but it has to answer
+                return Cmd { text: format!("open {}", json!({"files":[f], "sort": sort})), name: "open".into(), kind: "open-maybe", malformed: false };
+            }
             if rng.chance(1, 4) {
                 // starts paused: nothing is consumed from the pipeline until resume
                 Cmd { text: format!("open {}", json!({"files":[f], "sort": sort, "collect": "one_pass_streams"})), name: "open".into(), kind: "open", malformed: false }
@@ -171,7 +198,7 @@ fn gen_cmd(rng: &mut Rng, m: &Model, cx: &Ctx) -> Cmd {
                 1 => "plugin_cmd {".to_string(),
                 2 => "plugin_cmd []".to_string(),
                 3 => "plugin_cmd {\"cmd\":\"save\"}".to_string(),
-                _ => format!("plugin_cmd {}", json!({"cmd":"save","name":"FileTransfer","params":{"saveAs":"/nonexistent/dir/x"},"cmdCtx":{"save":{"idx":0}}})),
+                _ => format!("plugin_cmd {}", json!({"cmd":*rng.pick(&["save","bogus",""]),"name":*rng.pick(&["FileTransfer","SomeIp","Rewrite","nope"]),"params":{"saveAs":"/nonexistent/dir/x"},"cmdCtx":{"save":{"idx":rng.below(3)}}})),
             };
             Cmd { text: t, name: "plugin_cmd".into(), kind: "plugin_cmd", malformed: true }
         }
@@ -293,6 +320,18 @@ fn session(rng: &mut Rng, srv: &mut Server, cx: &Ctx, rep: &mut Report, history:
                     m.one_pass = c.text.contains("one_pass_streams");
                 } else {
                     return Some(("state:valid-open-rejected".into(), format!("'{}' -> '{}'", c.text, reply.chars().take(200).collect::<String>())));
+                }
+            }
+            "open-maybe" => {
+                // acceptance is not determined by the property (hostile plugin settings, unreadable archive): the model follows the reply
+                had_stateful = true;
+                if m.open {
+                    if ok {
+                        return Some(("state:open-while-open-accepted".into(), reply));
+                    }
+                } else if ok {
+                    m.open = true;
+                    m.one_pass = false;
                 }
             }
             "open-bad" => {
